@@ -102,6 +102,13 @@ CHECKS = {
    note="h2 (the crate) is on both sides: frame-level behaviour of the client half is trusted. Request bodies over HTTP/2 (h2::Payload release_capacity) and h2 keep-alive pings are not explored. The connection window is kept large so that starvation of one stream is never a legitimate reason for another to wait.",
    technique="property-based testing over generated flow-control schedules against interpreted handler programs (ground truth by construction), virtual-time deadline as hang detector",
    design_ref="DESIGN.md §5 C08"),
+ "C16": dict(
+   engine="pbt",
+   category="exploration",
+   text="A temp tree (under /verif/target/tmp, one per worker thread, removed afterwards) holds a served root with files of length 0/1/10/25/33/40/70000 whose contents encode their own relative path, hidden files, index files, and - next to the root - a canary file, a canary directory and a look-alike sibling directory. Files::new(\"/static\", root) with show_files_listing / index_file / use_hidden_files / redirect_to_slash_directory toggled is served through actix_web::test. Phase paths: tails built from 0-5 tokens (real names, '.', '..', %2e, %2E%2E, ..%2f, %2f, %5c, %00, %25, %252e%252e, UTF-8 escapes, names that exist only outside the root) joined by '/', '//' or nothing. Phase files: plain paths to existing files with a Range header from a grammar (first-last, from, suffix, multiple, offsets relative to the file end, 2^62 / 2^63 / 2^64-1 / 2^64, inverted, spaces, garbage) and If-Match / If-None-Match (own etag, other, *, garbage) / If-Modified-Since / If-Unmodified-Since (mtime +-0/1/100 s, garbage) built from the validators the server advertised in a prior plain GET. Oracle: no response contains canary bytes; every 200/206 body is (a slice of) a file under the root; listings link only to entries under the root; plain paths to existing files are served completely; a 206 has a well-formed possible Content-Range that is one of the satisfiable requested ranges (reference RFC 7233 evaluator), exact body and Content-Length; 416 only if nothing is satisfiable or the header is invalid, with bytes */len; a single satisfiable range is honoured; 412 only if If-Match or If-Unmodified-Since fails and always when If-Match fails; 304 only if If-None-Match matches or (absent it) If-Modified-Since >= mtime; 304/412/416 have empty bodies; never a panic (overflow checks on) or a 5xx. 2.4*10^4 (quick) to 4.8*10^5 (thorough) requests.",
+   note="Real file system under /verif/target/tmp (no symlinks, no concurrent modification). If-Range, HEAD and pre-compressed variants (try_compressed) are not generated. NamedFile opened directly by handlers is not covered, only Files.",
+   technique="property-based testing with self-describing file contents (containment oracle), reference range/conditional evaluators, grammar-generated paths and headers",
+   design_ref="DESIGN.md §5 C16"),
  "C01": dict(
    engine="simnet",
    category="exploration",
@@ -155,7 +162,7 @@ def main():
             "add_only": True,
         },
         "engines": [
-            {"name": "pbt", "path": "harness/src/runner.rs", "serves_properties": ["C07","C09","C10","C14","C18"], "kind_free_text": "parallel seeded proptest runner with shrinking, replay files, class histograms, known-findings exclusion; also enumerators for small finite spaces"},
+            {"name": "pbt", "path": "harness/src/runner.rs", "serves_properties": ["C07","C09","C10","C14","C16","C18"], "kind_free_text": "parallel seeded proptest runner with shrinking, replay files, class histograms, known-findings exclusion; also enumerators for small finite spaces"},
             {"name": "h2sim", "path": "harness/src/props/c08.rs", "serves_properties": ["C08"], "kind_free_text": "h2 client with scripted windows / capacity release / resets over tokio::io::duplex against HttpService with Protocol::Http2, paused clock"},
             {"name": "streams", "path": "harness/src/streams.rs", "serves_properties": ["C12","C13","C15"], "kind_free_text": "scripted chunk streams (generated cuts, self-waking Pending patterns, EOF or transport error, pull accounting) consumed on a paused current-thread tokio runtime under a virtual deadline (hang detector)"},
             {"name": "simnet", "path": "harness/src/simnet.rs", "serves_properties": ["C01","C02","C03","C04","C05","C06","C11","C13","C19"], "kind_free_text": "scripted in-memory socket + paused tokio clock + interpreted handler programs driving the real HttpService/h1 dispatcher"},
